@@ -130,7 +130,8 @@ func (w *World) SeedStandardAt(atomPrice math.LegacyDec) *Std {
 		tsp := tstypes.DefaultGenesis().Params
 		_ = app.TradeshieldKeeper.SetParams(ctx, &tsp)
 		cp := app.CommitmentKeeper.GetParams(ctx)
-		cp.VestingInfos = []ctypes.VestingInfo{{BaseDenom: "ueden", VestingDenom: "uelys", NumBlocks: 40, VestNowFactor: math.NewInt(90), NumMaxVestings: 8}}
+		cp.VestingInfos = []ctypes.VestingInfo{{BaseDenom: "ueden", VestingDenom: "uelys", NumBlocks: 40, VestNowFactor: math.NewInt(90), NumMaxVestings: 8},
+			{BaseDenom: "uatom", VestingDenom: "uatom", NumBlocks: 60, VestNowFactor: math.NewInt(90), NumMaxVestings: 8}}
 		app.CommitmentKeeper.SetParams(ctx, cp)
 		ap := app.AmmKeeper.GetParams(ctx)
 		ap.BaseAssets = []string{"uusdc"}
